@@ -22,7 +22,7 @@ from ..translator import consts
 LEVEL = "proof"
 PROP_FILES = ["PersimVerif/Props/C13.lean", "PersimVerif/Generated/KernelConsts.lean", py2lean.prop_file("kernels")]
 RULE = ("kernel parameter sets from one PRNG: correlation r from a ladder on both sides of 0.3/0.75/0.925 (exactly at, one ulp "
-        "below/above, +-1e-4), +-, |r| up to 0.99999 and uniform; variances 1e-4..1e4 (decimal and powers of 4), means of either "
+        "below/above, +-1e-4), +-, |r| up to 0.99999, 1-1e-5..1-1e-1, 1-1e-15..1-1e-8 and the largest double below 1, and uniform; variances 1e-4..1e4 (decimal and powers of 4), means of either "
         "sign and scale; evaluation points mu + t*sd with t from {0, +-tiny, uniform +-3, uniform +-12, lines dh=dk / dh=-dk, "
         "hk<-100 corners}; uniform kernel: dyadic boxes/points (exact) and decimal ones; non-trivial = a point strictly inside "
         "the +-12 sd window with r != 0 (gaussian) or strictly inside the box in at least one coordinate (uniform); distinct by "
@@ -46,6 +46,35 @@ TRUSTED = [py2lean.trusted_note("kernels"),
 EXPLANATION = ("proof, partial: 'obligations' counts the Lean theorems of Props/C13.lean and the generated constant obligations of "
                "Generated/KernelConsts.lean (coverage.proof_part); the accuracy/validity of the correlated Gaussian kernel is NOT among "
                "them and is reported as test streams on the real code (coverage.test_part / coverage.tests)")
+# theorems that carry a clause of the property (of 27 in Props/C13.lean + 18 generated constant obligations); not listed: helpers
+# and restatements (uniform_inside, sbvn_rect_eq, gaussian_nonzero_cov_is_bvn, sbvn_mono_real, sbvn_rect_nonneg_real,
+# stdNormalCdf_isCdfLike/_tails, cdf_gaussianReal_standardise), regression witnesses about the repaired defects
+# (old_cutoff_*, far_tail_fix_is_exact_over_the_reals, bvn_eq_bvnOldTail) and the constant obligations
+CORE_THEOREMS = ["PersimVerif.C13." + n for n in (
+    "uniform_is_product_clamp", "uniform_range", "uniform_mono", "uniform_tails", "uniform_rect_nonneg", "uniform_is_box_measure",
+    "sbvn_range", "sbvn_mono", "sbvn_rect_nonneg", "sbvn_tails", "gaussian_zero_cov_is_product", "gaussian_zero_cov_valid",
+    "gaussian_zero_cov_is_bivariate_normal_cdf", "gaussian_is_valid_accurate_cdf_partial")]
+# clause by clause: what is a theorem [P] and what is only a test stream on the real code [T]
+CLAUSES = {
+    "uniform kernel is the CDF of the uniform distribution on the box (range, monotone, tails, rectangle mass, box measure)":
+        "[P] for all real inputs with positive sides (uniform_*); additionally [T] uniform_* streams and exact correspondence",
+    "gaussian, zero covariance: product of the two marginals":
+        "[P] gaussian_zero_cov_is_product; [T] zero_cov_is_product_of_marginals",
+    "gaussian, zero covariance: values in [0,1], non-decreasing, non-negative rectangle mass, tails 0 and 1":
+        "[P] for every monotone Phi into [0,1] (sbvn_range, sbvn_mono, sbvn_rect_nonneg, sbvn_tails, gaussian_zero_cov_valid)",
+    "gaussian, zero covariance: agrees with the bivariate normal CDF":
+        "[P] with Phi = the standard normal CDF (gaussian_zero_cov_is_bivariate_normal_cdf); that the code's erfc-based norm_cdf is "
+        "that Phi is [T] (ker.ncdf correspondence against the driver's erfc, scipy.special.ndtr in zero_cov_is_product_of_marginals)",
+    "gaussian, non-zero covariance (bvn_cdf): values in [0,1]": "[T] only: range_[0,1]",
+    "gaussian, non-zero covariance: non-decreasing in each argument": "[T] only: monotone_in_x, monotone_in_y",
+    "gaussian, non-zero covariance: non-negative mass on every rectangle": "[T] only: rectangle_mass_nonneg",
+    "gaussian, non-zero covariance: tends to 0 and 1 in the tails": "[T] only: tails_0_1_and_marginals, far_tails, far_tails_corpus",
+    "gaussian, non-zero covariance: agrees with a reference bivariate normal CDF to 1e-7":
+        "[T] only: accuracy_vs_owen, accuracy_vs_adaptive_integral, accuracy_vs_scipy_mvn, accuracy_corpus_r>=0.925 "
+        "(|r| up to the largest double below 1; scipy's mvn is not available within 1e-7 of |r| = 1)",
+    "constants of the algorithm (Gauss-Legendre tables, thresholds, cut-offs)": "[P] regenerated from the source and re-checked on every run",
+}
+
 TOL = 1e-12          # correspondence, absolute (DESIGN.md 6/C13)
 ACC = 1e-7           # accuracy demanded by the property
 SLACK = 1e-12        # rounding slack of the validity streams
@@ -136,6 +165,18 @@ def ref_quad(h, k, rho):
 
 
 def ref_mvn(h, k, rho):
+    """scipy's Genz integrator; None where scipy itself refuses the covariance (|rho| within ~1e-8 of 1: its positive-definiteness
+    test fails) - the reference is then simply not available, the adaptive integral still decides"""
+    from scipy import stats
+    if 1.0 - abs(rho) < 1e-7:
+        return None
+    try:
+        return _ref_mvn(h, k, rho)
+    except (np.linalg.LinAlgError, ValueError):
+        return None
+
+
+def _ref_mvn(h, k, rho):
     from scipy import stats
     return float(stats.multivariate_normal.cdf([h, k], mean=[0.0, 0.0], cov=[[1.0, rho], [rho, 1.0]],
                                                abseps=1e-12, releps=1e-12, maxpts=2000000))
@@ -166,8 +207,10 @@ def gen_r(ctx):
     elif u < 0.75:                    # one ulp on either side of a threshold
         t = r.choice(THRESHOLDS)
         v = r.choice([t, math.nextafter(t, 0.0), math.nextafter(t, 1.0)])
-    elif u < 0.85:
+    elif u < 0.83:
         v = 1.0 - 10 ** r.uniform(-5, -1)
+    elif u < 0.88:                    # the last decades below 1: 1-1e-8 ... 1-1e-15 and the largest double below 1
+        v = r.choice([1.0 - 10 ** r.uniform(-15, -8), 1.0 - 1e-8, 1.0 - 1e-10, 1.0 - 1e-12, 1.0 - 1e-15, math.nextafter(1.0, 0.0)])
     else:
         v = r.uniform(0.0, 0.99)
     return v if r.random() < 0.5 else -v
@@ -599,8 +642,11 @@ def t_gauss(ctx):
         okm = True
         if i % 3 == 0:
             mv = ref_mvn(float(h[0]), float(k[0]), rr)
-            okm = math.isfinite(v) and (abs(v - mv) <= ACC or abs(mv - q) > 1e-9)   # scipy counts only where it agrees with the integral
-            ctx.test("accuracy_vs_scipy_mvn", okm)
+            if mv is None:
+                ctx.count("scipy_mvn_not_available_(|r|_within_1e-7_of_1)")
+            else:
+                okm = math.isfinite(v) and (abs(v - mv) <= ACC or abs(mv - q) > 1e-9)   # scipy counts only where it agrees with the integral
+                ctx.test("accuracy_vs_scipy_mvn", okm)
         if not (ok and okm):
             ctx.violation("gaussian differs from the bivariate normal CDF by more than 1e-7: code=%r adaptive integral=%r (est. err %r), r=%r"
                           % (v, q, e, rr), {"op": "gauss", "x": xs, "y": ys, "mu": [mu0, mu1], "sigma": [sxx, syy, sxy]})
@@ -821,6 +867,8 @@ def broken_theorems(ctx):
 
 
 def run(ctx):
+    ctx.extra["core_theorems"] = CORE_THEOREMS
+    ctx.extra["clauses"] = CLAUSES
     bt = broken_theorems(ctx)
     for n in py2lean.broken_obligations(ctx, [py2lean.prop_file("kernels")]):
         if n not in bt:
@@ -918,7 +966,7 @@ def replay(ctx, rep):
 
 
 MANIFEST = {
-    "text": "Proof, partial. PROVED in Lean for all real (ordered-field) inputs: the uniform kernel is completely the CDF of the uniform "
+    "text": "Proof, partial (45 obligations = 27 theorems, of which 14 core, + 18 generated constant obligations). PROVED in Lean for all real (ordered-field) inputs: the uniform kernel is completely the CDF of the uniform "
             "distribution on the box centred at the point — values in [0,1], non-decreasing in each argument, 0 at or below the lower-left "
             "corner in either coordinate and 1 at or beyond the upper-right corner, non-negative mass on every rectangle, equal to the product "
             "of the two clamped marginals and to Lebesgue measure of (box ∩ lower-left quadrant)/area; the zero-covariance branch of the "
@@ -933,7 +981,7 @@ MANIFEST = {
             "Drezner–Wesolowsky/Genz quadrature (|r|<0.925) and expansion (|r|≥0.925) of bvn_cdf approximate the bivariate normal CDF to 1e-7, "
             "stay in [0,1] and are monotone when the covariance is non-zero — a machine-checked error bound for these quadratures is not "
             "attainable with this tooling. For that clause the Lean model is a faithful transcription of the algorithm executed at Float and "
-            "tied to the code by correspondence (1e-12) on both sides of 0.3/0.75/0.925, |r| up to 0.99999, tails to ±12σ and far tails to 1e6σ, "
+            "tied to the code by correspondence (1e-12) on both sides of 0.3/0.75/0.925, |r| up to the largest double below 1 (1-1e-15 .. 1-1e-8 included), tails to ±12σ and far tails to 1e6σ, "
             "variances 1e-4…1e4; accuracy (vs Owen's closed form, adaptive integration, scipy), range, monotonicity, rectangle mass, tails and marginals "
             "are test streams on the real code. The `asr > 100` defect (fixed in 378a266) and the far-tail NaN (inf·0, fixed in "
             "4b6a233) lay exactly in this untheoremed branch and were found by that test part.",
@@ -941,7 +989,13 @@ MANIFEST = {
             "translator (ast); scipy.special.owens_t/ndtr, scipy.integrate.quad and scipy.stats.multivariate_normal as accuracy references; "
             "erfc as a monotone Φ into [0,1] (contract of scipy.special.erfc, compared with the driver's own erfc on every run). Theorems "
             "are exact-arithmetic; rounding is covered only by the [T] streams (slack 1e-12). Evidence reports proof_part and test_part "
-            "separately.",
+            "separately. Clause by clause - [T] ONLY (no theorem), all for the Gaussian kernel with NON-ZERO covariance (bvn_cdf): values "
+            "in [0,1] (stream range_[0,1]); non-decreasing in each argument (monotone_in_x, monotone_in_y); non-negative mass on every "
+            "rectangle (rectangle_mass_nonneg); tails 0 and 1 (tails_0_1_and_marginals, far_tails); agreement with a reference bivariate "
+            "normal CDF to 1e-7 (accuracy_vs_owen, accuracy_vs_adaptive_integral, accuracy_vs_scipy_mvn, accuracy_corpus_r>=0.925). Also "
+            "[T]: that the code's erfc-based norm_cdf is the standard normal CDF (ker.ncdf, zero_cov_is_product_of_marginals). Everything "
+            "else in the statement - the uniform kernel completely, and for zero covariance: product of the marginals, range, monotone, "
+            "rectangle mass, tails, equality with the bivariate normal CDF for Phi the standard normal CDF - is [P] (coverage.clauses).",
     "technique": "Lean 4 theorems (uniform kernel, product form, generated constant obligations) + Float transcription tied by "
                  "differential correspondence + reference tests for the correlated Gaussian",
 }
